@@ -29,12 +29,19 @@ def expr_src(x):
     if k == "ne":
         return "%s != '%s'" % (name_src(x["n"]), x["c"])
     if k == "and":
-        return "(%s) and (%s)" % (expr_src(x["l"]), expr_src(x["r"]))
+        return "(%s) and (%s)" % (paren(x["l"]), paren(x["r"]))
     if k == "or":
-        return "(%s) or (%s)" % (expr_src(x["l"]), expr_src(x["r"]))
+        return "(%s) or (%s)" % (paren(x["l"]), paren(x["r"]))
     if k == "not":
         return "not (%s)" % expr_src(x["a"])
+    if k == "ite":
+        # deliberately without outer parentheses: as one of several trigger expressions it must still be its own disjunct
+        return "(%s) if (%s) else (%s)" % (expr_src(x["t"]), expr_src(x["c"]), expr_src(x["e"]))
     raise ValueError(k)
+
+
+def paren(x):
+    return expr_src(x)
 
 
 def split_or(x):
